@@ -312,7 +312,68 @@ def writeinprofile(rng):
     return dict(nc=nc, seats=rng.choice([1, 2, 2]), lines=lines, tie=tie, withdrawn=[], undeclared=[W], eqlines=[])
 
 
-SHAPES = dict(reversal=reversalprofile, writein=writeinprofile, prior=priorprofile, bullet=bulletprofile, exact=exactprofile, sliver=sliverprofile, random=randprofile, tie=tieprofile, quota=quotaprofile, chain=chainprofile, coalition=coalitionprofile)
+def surplustieprofile(rng):
+    "two candidates reach the quota at the same stage with EQUAL tallies after having differed before (largest-surplus tie by prior stage / by lot)"
+    nc = rng.randint(4, 6)
+    order = list(range(1, nc + 1))
+    rng.shuffle(order)
+    A, B, D = order[:3]
+    others = order[3:]
+    x = rng.randint(1, 2)
+    t = rng.randint(5, 8)
+    # A has t, B has t-1; D (lowest) is excluded and passes x papers to A and x+1 to B: both end on t+x
+    lines = [(t, [A] + rng.sample(others, rng.randint(0, len(others)))), (t - 1, [B] + rng.sample(others, rng.randint(0, len(others)))),
+             (x, [D, A]), (x + 1, [D, B])]
+    rest = rng.randint(1, 3)
+    for c in others:
+        lines.append((2 * x + 2 + rest, [c]))        # above D, below the quota
+    n = sum(m for m, _ in lines)
+    seats = 2
+    # quota must be reached by t+x but not by t: scotland/mpls quota = n//(seats+1)+1
+    rng.shuffle(lines)
+    tie = list(range(1, nc + 1))
+    rng.shuffle(tie)
+    return dict(nc=nc, seats=seats, lines=lines, tie=tie, withdrawn=[], undeclared=[], eqlines=[])
+
+
+def bigmprofile(rng):
+    "few lines with multipliers in the thousands (truncation effects scale with the multiplier)"
+    nc = rng.randint(3, 5)
+    seats = rng.randint(1, nc - 1)
+    base = list(range(1, nc + 1))
+    lines = []
+    for _ in range(rng.randint(3, 6)):
+        lines.append((rng.choice([1, 7, 100, 999, 1000, 2500, 4001]), rng.sample(base, rng.randint(1, nc))))
+    lines.append((rng.randint(nc, 50), list(base)))
+    tie = list(base)
+    rng.shuffle(tie)
+    return dict(nc=nc, seats=seats, lines=lines, tie=tie, withdrawn=[], undeclared=[], eqlines=[])
+
+
+def sparseprofile(rng):
+    "short ballots that exhaust early, candidates without first preferences, more seats than candidates with any support"
+    nc = rng.randint(4, 7)
+    seats = rng.randint(2, nc - 1)
+    base = list(range(1, nc + 1))
+    supported = rng.sample(base, rng.randint(1, max(1, seats - 1)))
+    lines = []
+    for c in supported:
+        lines.append((rng.randint(2, 9), [c]))
+        if rng.random() < 0.5:
+            lines.append((rng.randint(1, 3), [c, rng.choice(base)] if rng.random() < 0.5 else [c]))
+    lines = [(m, list(dict.fromkeys(r))) for m, r in lines]
+    if rng.random() < 0.5:
+        lines.append((1, rng.sample(base, 2)))
+    while sum(m for m, _ in lines) < nc:
+        lines.append((nc, [rng.choice(supported)]))
+    rng.shuffle(lines)
+    tie = list(base)
+    rng.shuffle(tie)
+    wd = [c for c in base if c not in supported and rng.random() < 0.2][:1]
+    return dict(nc=nc, seats=min(seats, nc - len(wd)), lines=lines, tie=tie, withdrawn=wd, undeclared=[], eqlines=[])
+
+
+SHAPES = dict(surplustie=surplustieprofile, bigm=bigmprofile, sparse=sparseprofile, reversal=reversalprofile, writein=writeinprofile, prior=priorprofile, bullet=bulletprofile, exact=exactprofile, sliver=sliverprofile, random=randprofile, tie=tieprofile, quota=quotaprofile, chain=chainprofile, coalition=coalitionprofile)
 
 # configurations whose numbers fit TLC's 32-bit integers for small electorates
 WIGM_ARITH = [
